@@ -107,7 +107,7 @@ def check_rank_siblings(cx, rule):
             effs = [(e, x) for e, x in effects(w, prog, (ME,)) if x['op'] not in ('take', 'get_mut')]
             rule.instance('Channel::%s touches (modes.%s, users[nick].%s)' % (mname, setname, flagname))
             setops = [(e, x) for e, x in effs if x['op'] in ('insert', 'remove')]
-            writeback = [(e, x) for e, x in effs if x['op'] == 'assign' and path_of(x['place'])[-2:] == ['modes', setname]]
+            writeback = [(e, x) for e, x in effs if x['op'] in ('assign',) + ENSURE_SOME and path_of(x['place'])[-2:] == ['modes', setname]]
             flags = [(e, x) for e, x in effs if x['op'] == 'assign' and x['place'] == field(('idx', field(ME, 'users'), NICK), flagname)]
             other = [(e, x) for e, x in effs if (e, x) not in setops + writeback + flags]
             ok = (len(setops) == 1 and setops[0][1]['op'] == ('insert' if add else 'remove')
